@@ -24,6 +24,10 @@ type GenOpts struct {
 	MaxSize  int    // cap on body size (0 = 1 MiB)
 	NoBig    bool   // leave out the 65537 / 1 MiB sizes
 	Proxy    bool   // message travels through a real proxy: keep to what Go's transport forwards verbatim
+	// OddCTypeParams gives a fixed share of the plain content types an unusual
+	// parameter tail (repeated parameter, quoted value, stray semicolons): the
+	// field value still starts with the media type.
+	OddCTypeParams bool
 	// BadQuery lets some request targets carry query pairs with a malformed
 	// percent-escape ("width=100%", "q=50%+off"): net/url keeps RawQuery verbatim
 	// and net/http accepts and forwards such targets.
@@ -363,6 +367,17 @@ var plainCTypes = map[string][]string{
 	"binary": {"application/octet-stream", "image/png", "video/mp4", "application/x-protobuf"},
 }
 
+// oddCTypeTails are parameter tails that are unusual on the wire but leave the
+// media type at the start of the field value untouched.
+var oddCTypeTails = []string{
+	"; charset=utf-8; charset=UTF-8", // parameter given twice, values differing in case
+	"; charset=utf-8; charset=iso-8859-1",
+	`;charset="utf-8"`,
+	"; q=0.5 ; x",
+	";",
+	"; charset=utf-8; boundary=zz; charset=utf-8",
+}
+
 func pathSeg(rng *rand.Rand) string {
 	segs := []string{"a", "items", "v1", "x-y_z", "%41bc", "caf%C3%A9", "a%2Fb", "~u", "i.d", "1234", "a+b", "p;v=1", "@me", "a,b"}
 	return segs[rng.Intn(len(segs))]
@@ -545,6 +560,14 @@ func fillBody(rng *rand.Rand, s *Spec, o GenOpts, size int, allowForms bool) {
 			c := plainCTypes[kind]
 			if rng.Intn(10) > 0 {
 				s.CType = c[rng.Intn(len(c))]
+			}
+			// decided by the size already drawn, not by a further PRNG draw
+			if o.OddCTypeParams && s.CType != "" && size%4 == 1 {
+				base := s.CType
+				if i := strings.IndexByte(base, ';'); i >= 0 {
+					base = base[:i]
+				}
+				s.CType = base + oddCTypeTails[(size/4)%len(oddCTypeTails)]
 			}
 		}
 	}
